@@ -66,3 +66,13 @@ Definition fanout_accepts (slack : N) (rs : list crec) : bool := forallb (consum
 (* indices of the rejected consumers *)
 Definition fanout_rejected (slack : N) (rs : list crec) : list nat :=
   map fst (filter (fun p => negb (consumer_accepts slack (snd p))) (combine (seq 0 (length rs)) rs)).
+
+(* ---- one recorded history (either harness fills its half, the other half is empty and trivially accepted):
+   [accepts_history] is the verdict lib/c15.py reads for every history. *)
+Record history := mkHistory {
+  h_sent : list (list msg); h_port : list msg;   (* relay, out-direction *)
+  h_arrived : list msg; h_got : list msg;        (* relay, in-direction *)
+  h_slack : N; h_consumers : list crec }.        (* fan-out *)
+
+Definition accepts_history (h : history) : bool :=
+  relay_ok (h_sent h) (h_port h) && in_ok (h_arrived h) (h_got h) && fanout_accepts (h_slack h) (h_consumers h).
